@@ -1,5 +1,483 @@
+import OpusModel.Ctl
+import OpusModel.Framing
 import Driver.Util
-/- Suite stub — replaced by the owner of this suite. -/
+/-
+  Suite `ctl` (property C11).  One `I` line carries a whole history for one object.
+
+    ctl toc <mode> <framerate> <bandwidth> <channels>                  gen_toc (on GenTocDom)
+    ctl fss <frame_size> <variable_duration> <Fs>                      frame_size_select
+    ctl create enc <Fs> <ch> <app> <failk>                             create (+ k-th malloc fails)
+    ctl create dec <Fs> <ch> <failk>
+    ctl create msenc <Fs> <ch> <streams> <coupled> <map> <app> <failk>
+    ctl create mssur <Fs> <ch> <family> <app> <failk>
+    ctl create msdec <Fs> <ch> <streams> <coupled> <map> <failk>
+    ctl create projenc <Fs> <ch> <family> <app> <failk>
+    ctl enc <Fs> <ch> <app> <op>*                                      ctl / encode history
+    ctl dec <Fs> <ch> <op>*
+    ctl msenc <Fs> <ch> <streams> <coupled> <map> <app> <op>*
+    ctl mssur <Fs> <ch> <family> <app> <op>*
+    ctl projenc <Fs> <ch> <app> <op>*
+    ctl msdec <Fs> <ch> <streams> <coupled> <map> <op>*                (also projection decoder)
+    ctl honour <Fs> <ch> <app> <sets> <frame_size> <bytes> <k> <sets2> <pk>*
+
+  op tokens:  s<id>:<v>  setter      g<id> getter (valid pointer)   n<id> getter (NULL)
+              r  OPUS_RESET_STATE    m0|m1 SET_ENERGY_MASK(NULL|ptr)   c0|c1 CELT_GET_MODE(NULL|ptr)
+              u<id>  request number the object does not implement
+              x<id>:<0|1>  MULTISTREAM_GET_{EN,DE}CODER_STATE(id, NULL|ptr)
+              q<0|1> / a<0|1> / t<0|1>:<size>  projection demixing size / gain / matrix requests
+              E<frame_size>:<bytes>:<ret>:<obs,…>   opus_encode + fields observed afterwards
+              D<frame_size>:<ret>:<obs,…>           opus_decode + fields observed afterwards
+  After every op the answer is `<code>[=<value>]/<snapshot>`.
+-/
 namespace Driver.SuiteCtl
-def handle (_ : List String) : String := "bad-op"
+open Opus Opus.EncDecide Opus.Ctl Driver
+
+def retStr (r : Ret) : String :=
+  let c := if r.code = 0 then "OK" else
+    match [Err.badArg, .bufferTooSmall, .internalError, .invalidPacket, .unimplemented, .invalidState, .allocFail].find?
+      (fun e => e.code = r.code) with
+    | some e => e.name
+    | none => s!"ERR{r.code}"
+  match r.val with
+  | some v => s!"{c}={v}"
+  | none => c
+
+def b2i (b : Bool) : Int := if b then 1 else 0
+
+/-- All getters (through `encCtl`) followed by the hidden fields. -/
+def encSnap (s : EncSt) : String :=
+  let gs := EncGetK.all.map (fun k => match (encCtl s (.get k true)).2.val with
+    | some v => toString v
+    | none => "?")
+  let hidden : List Int :=
+    [s.userBitrate, s.userBandwidth, s.userForcedMode, s.lfe, b2i s.first, s.maxInternalSampleRate,
+     s.useCBR, s.useInBandFEC, s.celtComplexity, s.celtLossRate, s.celtDisableInv, s.celtLfe,
+     b2i s.celtEnergyMask, b2i s.energyMasking]
+  ",".intercalate (gs ++ hidden.map toString)
+
+def decSnap (s : DecSt) : String :=
+  let gs := DecGetK.all.map (fun k => match (decCtl s (.get k true)).2.val with
+    | some v => toString v
+    | none => "?")
+  ",".intercalate (gs ++ [toString s.celtComplexity])
+
+def msEncSnap (s : MsEncSt) : String :=
+  let gs := EncGetK.all.map (fun k =>
+    let r := (msEncCtl s (.get k true)).2
+    match r.val with
+    | some v => toString v
+    | none => retStr r)
+  ",".intercalate (gs ++ [toString s.bitrateBps]) ++ ";" ++ ";".intercalate (s.streams.map encSnap)
+
+def msDecSnap (s : MsDecSt) : String :=
+  let gs := DecGetK.all.map (fun k =>
+    let r := (msDecCtl s (.get k true)).2
+    match r.val with
+    | some v => toString v
+    | none => retStr r)
+  ",".intercalate gs ++ ";" ++ ";".intercalate (s.streams.map decSnap)
+
+def tokBody (t : String) : String := String.ofList (t.toList.drop 1)
+
+def encKnownIds : List Int :=
+  EncSetK.all.map (·.id) ++ EncGetK.all.map (·.id) ++ [OPUS_RESET_STATE, OPUS_SET_ENERGY_MASK_REQUEST, CELT_GET_MODE_REQUEST]
+def decKnownIds : List Int := DecSetK.all.map (·.id) ++ DecGetK.all.map (·.id) ++ [OPUS_RESET_STATE]
+def msEncKnownIds : List Int :=
+  (EncSetK.all.filter (fun k => msEncFwdSet k || k = .bitrate || k = .expertFrameDuration)).map (·.id) ++
+  (EncGetK.all.filter (fun k => msEncFwdGet k || k = .bitrate || k = .finalRange || k = .expertFrameDuration)).map (·.id) ++
+  [OPUS_RESET_STATE, OPUS_MULTISTREAM_GET_ENCODER_STATE_REQUEST]
+def msDecKnownIds : List Int :=
+  (DecSetK.all.filter msDecFwdSet).map (·.id) ++
+  (DecGetK.all.filter (fun k => msDecFwdGet k || k = .finalRange)).map (·.id) ++
+  [OPUS_RESET_STATE, OPUS_MULTISTREAM_GET_DECODER_STATE_REQUEST]
+
+/-- Parse a plain ctl token for the encoder. -/
+def parseEncReq (t : String) : Option EncReq :=
+  let body := tokBody t
+  match t.toList.head? with
+  | some 's' => match body.splitOn ":" with
+    | [i, v] => do
+      let i ← i.toInt?; let v ← v.toInt?
+      let k ← EncSetK.all.find? (·.id = i)
+      pure (.set k v)
+    | _ => none
+  | some 'g' => do let i ← body.toInt?; let k ← EncGetK.all.find? (·.id = i); pure (.get k true)
+  | some 'n' => do let i ← body.toInt?; let k ← EncGetK.all.find? (·.id = i); pure (.get k false)
+  | some 'r' => if body = "" then some .resetState else none
+  | some 'm' => if body = "1" then some (.setEnergyMask true) else if body = "0" then some (.setEnergyMask false) else none
+  | some 'c' => if body = "1" then some (.celtGetMode true) else if body = "0" then some (.celtGetMode false) else none
+  | some 'u' => do let i ← body.toInt?; if encKnownIds.contains i then none else pure (.unknown i)
+  | _ => none
+
+def parseDecReq (t : String) : Option DecReq :=
+  let body := tokBody t
+  match t.toList.head? with
+  | some 's' => match body.splitOn ":" with
+    | [i, v] => do
+      let i ← i.toInt?; let v ← v.toInt?
+      let k ← DecSetK.all.find? (·.id = i)
+      pure (.set k v)
+    | _ => none
+  | some 'g' => do let i ← body.toInt?; let k ← DecGetK.all.find? (·.id = i); pure (.get k true)
+  | some 'n' => do let i ← body.toInt?; let k ← DecGetK.all.find? (·.id = i); pure (.get k false)
+  | some 'r' => if body = "" then some .resetState else none
+  | some 'u' => do let i ← body.toInt?; if decKnownIds.contains i then none else pure (.unknown i)
+  | _ => none
+
+/-- Multistream encoder requests.  A setter/getter kind the MS layer does not forward is still a
+    well-typed call (int / int* argument); the model answers UNIMPLEMENTED for it. -/
+def parseMsEncReq (t : String) : Option MsEncReq :=
+  let body := tokBody t
+  match t.toList.head? with
+  | some 's' => match body.splitOn ":" with
+    | [i, v] => do
+      let i ← i.toInt?; let v ← v.toInt?
+      let k ← EncSetK.all.find? (·.id = i)
+      pure (.set k v)
+    | _ => none
+  | some 'g' => do let i ← body.toInt?; let k ← EncGetK.all.find? (·.id = i); pure (.get k true)
+  | some 'n' => do let i ← body.toInt?; let k ← EncGetK.all.find? (·.id = i); pure (.get k false)
+  | some 'r' => if body = "" then some .resetState else none
+  | some 'x' => match body.splitOn ":" with
+    | [i, p] => do let i ← i.toInt?; let p ← p.toNat?; pure (.getEncoderState i (p != 0))
+    | _ => none
+  | some 'u' => do let i ← body.toInt?; if msEncKnownIds.contains i then none else pure (.unknown i)
+  | _ => none
+
+def parseMsDecReq (t : String) : Option MsDecReq :=
+  let body := tokBody t
+  match t.toList.head? with
+  | some 's' => match body.splitOn ":" with
+    | [i, v] => do
+      let i ← i.toInt?; let v ← v.toInt?
+      let k ← DecSetK.all.find? (·.id = i)
+      pure (.set k v)
+    | _ => none
+  | some 'g' => do let i ← body.toInt?; let k ← DecGetK.all.find? (·.id = i); pure (.get k true)
+  | some 'n' => do let i ← body.toInt?; let k ← DecGetK.all.find? (·.id = i); pure (.get k false)
+  | some 'r' => if body = "" then some .resetState else none
+  | some 'x' => match body.splitOn ":" with
+    | [i, p] => do let i ← i.toInt?; let p ← p.toNat?; pure (.getDecoderState i (p != 0))
+    | _ => none
+  | some 'u' => do let i ← body.toInt?; if msDecKnownIds.contains i then none else pure (.unknown i)
+  | _ => none
+
+def parseProjReq (t : String) : Option ProjEncReq :=
+  let body := tokBody t
+  match t.toList.head? with
+  | some 'q' => if body = "1" then some (.demixSize true) else if body = "0" then some (.demixSize false) else none
+  | some 'a' => if body = "1" then some (.demixGain true) else if body = "0" then some (.demixGain false) else none
+  | some 't' => match body.splitOn ":" with
+    | [p, sz] => do let p ← p.toNat?; let sz ← sz.toInt?; pure (.demixMatrix (p != 0) sz)
+    | _ => none
+  | _ => (parseMsEncReq t).map .ms
+
+/-- `obs` list of an `E` token → `EncObs` (17 values, order of the structure). -/
+def parseEncObs (l : List Int) : Option EncObs :=
+  match l with
+  | [first, bw, pfs, rng, vr, fc, mir, cbr, sdtx, pm, sin, noact, sc, mode, pc, tm, cem] =>
+    some { first := first != 0, bandwidth := bw, prevFramesize := pfs, rangeFinal := rng.toNat,
+           voiceRatio := vr, forceChannels := fc, maxInternalSampleRate := mir, useCBR := cbr,
+           silkUseDTX := sdtx, prevMode := pm, silkInDtx := sin, noActivityQ1 := noact,
+           streamChannels := sc, mode, prevChannels := pc, toMono := tm, celtEnergyMask := cem != 0 }
+  | _ => none
+
+/-- `E<frame_size>:<bytes>:<ret>:<obs>` on a single encoder. -/
+def encEncodeOp (s : EncSt) (body : String) : Option (EncSt × String) :=
+  match body.splitOn ":" with
+  | [fsz, bytes, ret, obs] => do
+    let fsz ← fsz.toInt?; let bytes ← bytes.toInt?; let ret ← ret.toInt?
+    let o ← (← parseIntList obs) |> parseEncObs
+    match encodeContract s fsz bytes ret o with
+    | some why => pure (encAdopt s o, s!"CONTRACT({why})")
+    | none => pure (encAdopt s o, "enc")
+  | _ => none
+
+def runEnc (s : EncSt) : List String → List String → String
+  | [], acc => " ".intercalate acc.reverse
+  | t :: ts, acc =>
+    if t.toList.head? = some 'E' then
+      match encEncodeOp s (tokBody t) with
+      | some (s', r) => runEnc s' ts (s!"{r}/{encSnap s'}" :: acc)
+      | none => "bad-op"
+    else match parseEncReq t with
+      | none => "bad-op"
+      | some req =>
+        let (s', r) := encCtl s req
+        runEnc s' ts (s!"{retStr r}/{encSnap s'}" :: acc)
+
+def parseDecObs (l : List Int) : Option DecObs :=
+  match l with
+  | [bw, pm, dur, rng, cp, sp] =>
+    some { bandwidth := bw, prevMode := pm, lastPacketDuration := dur, rangeFinal := rng.toNat,
+           celtPitch := cp, silkPitch := sp }
+  | _ => none
+
+def runDec (s : DecSt) : List String → List String → String
+  | [], acc => " ".intercalate acc.reverse
+  | t :: ts, acc =>
+    if t.toList.head? = some 'D' then
+      match (tokBody t).splitOn ":" with
+      | [_, _, obs] =>
+        match (parseIntList obs).bind parseDecObs with
+        | some o => let s' := decAdopt s o; runDec s' ts (s!"dec/{decSnap s'}" :: acc)
+        | none => "bad-op"
+      | _ => "bad-op"
+    else match parseDecReq t with
+      | none => "bad-op"
+      | some req =>
+        let (s', r) := decCtl s req
+        runDec s' ts (s!"{retStr r}/{decSnap s'}" :: acc)
+
+/-- Observation after a multistream encode: per stream `EncObs` (17) followed by
+    user_bitrate_bps, user_bandwidth, user_forced_mode, energy_masking!=0. -/
+def adoptMsStream (e : EncSt) (l : List Int) : Option EncSt :=
+  match parseEncObs (l.take 17), l.drop 17 with
+  | some o, [ub, ubw, ufm, em] =>
+    some { encAdopt e o with userBitrate := ub, userBandwidth := ubw, userForcedMode := ufm,
+                             energyMasking := em != 0 }
+  | _, _ => none
+
+def adoptMs (s : MsEncSt) (obs : String) : Option MsEncSt := do
+  let parts := obs.splitOn ";"
+  if parts.length ≠ s.streams.length then none
+  let ss ← (s.streams.zip parts).mapM (fun (e, p) => (parseIntList p).bind (adoptMsStream e))
+  pure { s with streams := ss }
+
+def runProj (s : ProjEncSt) : List String → List String → String
+  | [], acc => " ".intercalate acc.reverse
+  | t :: ts, acc =>
+    if t.toList.head? = some 'E' then
+      match (tokBody t).splitOn ":" with
+      | [_, _, _, obs] =>
+        match adoptMs s.ms obs with
+        | some m => let s' := { s with ms := m }; runProj s' ts (s!"enc/{msEncSnap s'.ms}" :: acc)
+        | none => "bad-op"
+      | _ => "bad-op"
+    else match parseProjReq t with
+      | none => "bad-op"
+      | some req =>
+        let (s', r) := projEncCtl s req
+        runProj s' ts (s!"{retStr r}/{msEncSnap s'.ms}" :: acc)
+
+def runMsDec (s : MsDecSt) : List String → List String → String
+  | [], acc => " ".intercalate acc.reverse
+  | t :: ts, acc =>
+    match parseMsDecReq t with
+    | none => "bad-op"
+    | some req =>
+      let (s', r) := msDecCtl s req
+      runMsDec s' ts (s!"{retStr r}/{msDecSnap s'}" :: acc)
+
+def resHead {α} : Res α → String
+  | .ok _ => "OK"
+  | .err e => e.name
+  | .oob => "OOB"
+  | .abort => "ABORT"
+
+/-! ### honour -/
+
+def applySets (s : EncSt) (sets : String) : Option EncSt :=
+  if sets = "-" then some s else
+  (sets.splitOn ",").foldlM (fun s t =>
+    match t.splitOn ":" with
+    | [i, v] => do
+      let i ← i.toInt?; let v ← v.toInt?
+      let k ← EncSetK.all.find? (·.id = i)
+      encSet s k v
+    | _ => none) s
+
+structure PkObs where
+  len : Int
+  toc : Nat
+  b1 : Int
+
+def parsePk (t : String) : Option PkObs :=
+  match t.splitOn ":" with
+  | [l, toc, b1] => do pure { len := ← l.toInt?, toc := ← toc.toNat?, b1 := ← b1.toInt? }
+  | _ => none
+
+def pkFrames (p : PkObs) : Nat :=
+  if p.toc % 4 = 0 then 1 else if p.toc % 4 = 3 then (p.b1.toNat % 64) else 2
+
+/-- Check one packet of the normal path against the settings. -/
+def checkPkt (s : EncSt) (fsel : Int) (p : PkObs) : Option String :=
+  let toc := p.toc
+  let mode : Int := Framing.getMode toc
+  let bw : Int := Framing.getBandwidth toc
+  let ch : Int := Framing.getNbChannels toc
+  if (pkFrames p : Int) * (Framing.samplesPerFrame toc s.fs.toNat : Int) ≠ fsel then some "duration"
+  else if bw > bwLimit s.toDSt mode then some s!"bandwidth {bw}>{bwLimit s.toDSt mode}"
+  else if s.channels = 1 ∧ ch ≠ 1 then some "channels"
+  else if (s.application = APP_RESTRICTED_LOWDELAY ∨ fsel < s.fs / 100 ∨ s.lfe ≠ 0) ∧ mode ≠ MODE_CELT_ONLY
+    then some "mode-not-celt"
+  else if s.application ≠ APP_RESTRICTED_LOWDELAY ∧ s.lfe = 0 ∧ fsel ≥ s.fs / 100 ∧
+          s.userForcedMode = MODE_CELT_ONLY ∧ mode ≠ MODE_CELT_ONLY then some "forced-celt"
+  else if s.application ≠ APP_RESTRICTED_LOWDELAY ∧ s.lfe = 0 ∧ fsel ≥ s.fs / 100 ∧
+          (s.userForcedMode = MODE_SILK_ONLY ∨ s.userForcedMode = MODE_HYBRID) ∧ mode = MODE_CELT_ONLY
+    then some "forced-silk"
+  else if s.lfe ≠ 0 ∧ bw ≠ BW_NB then some "lfe-bandwidth"
+  else none
+
+/-- Channel constraint for packet `i` when `force_channels` is `f0` for packets `< k` and `f1` after. -/
+def checkChannels (s : EncSt) (k : Nat) (f1 : Int) (pks : List PkObs) : Option String :=
+  let chOf (p : PkObs) : Int := Framing.getNbChannels p.toc
+  let idx := List.range pks.length
+  let bad := (idx.zip pks).find? (fun (i, p) =>
+    if s.channels ≠ 2 then false
+    else if i < k then
+      (s.forceChannels = 2 && chOf p ≠ 2) || (s.forceChannels = 1 && chOf p ≠ 1)
+    else if f1 = 2 then chOf p ≠ 2
+    else if f1 = 1 then
+      if s.useDtx = 0 then i ≥ k + 1 && chOf p ≠ 1
+      else -- SILK DTX returns before prev_channels is updated: only "never two stereo packets in a row"
+        i ≥ k + 1 && chOf p ≠ 1 && (match pks[i-1]? with | some q => chOf q ≠ 1 | none => false)
+    else false)
+  match bad with
+  | some (i, _) => some s!"channels@{i}"
+  | none => none
+
+def honour (fs ch app : Int) (sets : String) (fsz bytes : Int) (k : Nat) (sets2 : String)
+    (pks : List String) : String :=
+  match encCreate fs ch app with
+  | .ok s0 =>
+    match applySets s0 sets with
+    | none => "bad-op"
+    | some s =>
+      let f1? : Option Int :=
+        if sets2 = "-" then some s.forceChannels
+        else match sets2.splitOn ":" with
+          | ["4022", v] => v.toInt?.bind (fun v => (encSet s .forceChannels v).map (·.forceChannels))
+          | _ => none
+      match f1? with
+      | none => "bad-op"
+      | some f1 =>
+      let fsel := frameSizeSelect fsz s.variableDuration s.fs
+      -- error answers are `e<code>:0:0`
+      if pks.any (fun t => t.startsWith "e-3") then "VIOLATES internal-error"
+      else if fsel ≤ 0 then
+        if pks.all (fun t => t.startsWith "e-1:") then "OK" else "VIOLATES bad-frame-size-accepted"
+      else match entryError s.toDSt fsel bytes with
+      | some e => if pks.all (fun t => t.startsWith s!"e{e.code}:") then "OK" else s!"VIOLATES entry-{e.name}"
+      | none =>
+        match (pks.filter (fun t => !t.startsWith "e")).mapM parsePk with
+        | none => "bad-op"
+        | some ps =>
+          if lowBudget s.toDSt fsel bytes then
+            -- nothing but bitrate_bps changes on this path: every packet is the initial low-budget packet
+            let lp := lowBudgetPacket s.toDSt fsel bytes
+            -- (CBR pads the packet, which re-codes it as code 3 with the same TOC config and frame count)
+            match ps.find? (fun p => p.toc / 4 ≠ lp.toc / 4 ∨ pkFrames p ≠ lp.frames ∨
+                     (pkFrames p : Int) * (Framing.samplesPerFrame p.toc s.fs.toNat : Int) ≠ fsel) with
+            | some p => s!"VIOLATES lowbudget toc={p.toc} expected={lp.toc}"
+            | none => "OK"
+          else
+            match ps.findSome? (checkPkt s fsel) with
+            | some why => s!"VIOLATES {why}"
+            | none =>
+              match checkChannels s k f1 ps with
+              | some why => s!"VIOLATES {why}"
+              | none => "OK"
+  | r => resHead r
+
+def handle : List String → String
+  | ["toc", mode, fr, bw, ch] =>
+    match parseInt mode, parseInt fr, parseInt bw, parseInt ch with
+    | some mode, some fr, some bw, some ch =>
+      if GenTocDom mode fr bw then toString (genToc mode fr bw ch) else "out-of-domain"
+    | _, _, _, _ => "bad-op"
+  | ["fss", fsz, vd, fs] =>
+    match parseInt fsz, parseInt vd, parseInt fs with
+    | some fsz, some vd, some fs => toString (frameSizeSelect fsz vd fs)
+    | _, _, _ => "bad-op"
+  | ["create", "enc", fs, ch, app, k] =>
+    match parseInt fs, parseInt ch, parseInt app, parseInt k with
+    | some fs, some ch, some app, some k =>
+      match encCreate fs ch app (k ≠ 0) with
+      | .ok s => s!"OK live=0 {encSnap s}"
+      | r => resHead r ++ " live=0"
+    | _, _, _, _ => "bad-op"
+  | ["create", "dec", fs, ch, k] =>
+    match parseInt fs, parseInt ch, parseInt k with
+    | some fs, some ch, some k =>
+      match decCreate fs ch (k ≠ 0) with
+      | .ok s => s!"OK live=0 {decSnap s}"
+      | r => resHead r ++ " live=0"
+    | _, _, _ => "bad-op"
+  | ["create", "msenc", fs, ch, st, cp, mp, app, k] =>
+    match parseInt fs, parseInt ch, parseInt st, parseInt cp, parseHex mp, parseInt app, parseInt k with
+    | some fs, some ch, some st, some cp, some mp, some app, some k =>
+      match msEncCreate fs ch st cp mp app (k ≠ 0) with
+      | .ok s => s!"OK live=0 {msEncSnap s}"
+      | r => resHead r ++ " live=0"
+    | _, _, _, _, _, _, _ => "bad-op"
+  | ["create", "mssur", fs, ch, fam, app, k] =>
+    match parseInt fs, parseInt ch, parseInt fam, parseInt app, parseInt k with
+    | some fs, some ch, some fam, some app, some k =>
+      match msSurroundCreate fs ch fam app (k ≠ 0) with
+      | .ok (s, st, cp, mp) => s!"OK live=0 {st} {cp} {toHex mp} {msEncSnap s}"
+      | r => resHead r ++ " live=0"
+    | _, _, _, _, _ => "bad-op"
+  | ["create", "msdec", fs, ch, st, cp, mp, k] =>
+    match parseInt fs, parseInt ch, parseInt st, parseInt cp, parseHex mp, parseInt k with
+    | some fs, some ch, some st, some cp, some mp, some k =>
+      match msDecCreate fs ch st cp mp (k ≠ 0) with
+      | .ok s => s!"OK live=0 {msDecSnap s}"
+      | r => resHead r ++ " live=0"
+    | _, _, _, _, _, _ => "bad-op"
+  | ["create", "projenc", fs, ch, fam, app, k] =>
+    match parseInt fs, parseInt ch, parseInt fam, parseInt app, parseInt k with
+    | some fs, some ch, some fam, some app, some k =>
+      match projEncCreate fs ch fam app (k ≠ 0) with
+      | .ok (s, st, cp) => s!"OK live=0 {st} {cp} {msEncSnap s.ms}"
+      | r => resHead r ++ " live=0"
+    | _, _, _, _, _ => "bad-op"
+  | "enc" :: fs :: ch :: app :: ops =>
+    match parseInt fs, parseInt ch, parseInt app with
+    | some fs, some ch, some app =>
+      match encCreate fs ch app with
+      | .ok s => runEnc s ops []
+      | r => resHead r
+    | _, _, _ => "bad-op"
+  | "dec" :: fs :: ch :: ops =>
+    match parseInt fs, parseInt ch with
+    | some fs, some ch =>
+      match decCreate fs ch with
+      | .ok s => runDec s ops []
+      | r => resHead r
+    | _, _ => "bad-op"
+  | "msenc" :: fs :: ch :: st :: cp :: mp :: app :: ops =>
+    match parseInt fs, parseInt ch, parseInt st, parseInt cp, parseHex mp, parseInt app with
+    | some fs, some ch, some st, some cp, some mp, some app =>
+      match msEncCreate fs ch st cp mp app with
+      | .ok s => runProj { ms := s, demixGain := 0 } ops []
+      | r => resHead r
+    | _, _, _, _, _, _ => "bad-op"
+  | "mssur" :: fs :: ch :: fam :: app :: ops =>
+    match parseInt fs, parseInt ch, parseInt fam, parseInt app with
+    | some fs, some ch, some fam, some app =>
+      match msSurroundCreate fs ch fam app with
+      | .ok (s, _, _, _) => runProj { ms := s, demixGain := 0 } ops []
+      | r => resHead r
+    | _, _, _, _ => "bad-op"
+  | "projenc" :: fs :: ch :: app :: ops =>
+    match parseInt fs, parseInt ch, parseInt app with
+    | some fs, some ch, some app =>
+      match projEncCreate fs ch 3 app with
+      | .ok (s, _, _) => runProj s ops []
+      | r => resHead r
+    | _, _, _ => "bad-op"
+  | "msdec" :: fs :: ch :: st :: cp :: mp :: ops =>
+    match parseInt fs, parseInt ch, parseInt st, parseInt cp, parseHex mp with
+    | some fs, some ch, some st, some cp, some mp =>
+      match msDecCreate fs ch st cp mp with
+      | .ok s => runMsDec s ops []
+      | r => resHead r
+    | _, _, _, _, _ => "bad-op"
+  | "honour" :: fs :: ch :: app :: sets :: fsz :: bytes :: k :: sets2 :: pks =>
+    match parseInt fs, parseInt ch, parseInt app, parseInt fsz, parseInt bytes, parseNat k with
+    | some fs, some ch, some app, some fsz, some bytes, some k => honour fs ch app sets fsz bytes k sets2 pks
+    | _, _, _, _, _, _ => "bad-op"
+  | _ => "bad-op"
+
 end Driver.SuiteCtl
